@@ -261,6 +261,7 @@ def ob_cube(ctx, D, a):
 def ob_rounding(ctx, D, A, B, other):
     """Default rounding (6 / 12 decimals) perturbs each coordinate by at most half a unit of the last kept decimal,
     so inverses hold up to that bound."""
+    ctx.exact_rounding = True  # this obligation is about the rounding itself
     g = geom.concrete_grid(D, ctx.seed, 0)
     h = geom.concrete_grid(D, ctx.seed, 1) if other else None
     x = _pts(ctx, D, seed=ctx.seed)
